@@ -197,3 +197,21 @@ def _(c):
 def _(c):
     c.arg("self", IntervalG()).arg("other", IntervalG())
     c.returns(lambda a, r: Iff(r, And(V.inst_ns(s_(a.self)) == V.inst_ns(s_(a.other)), V.inst_ns(e_(a.self)) == V.inst_ns(e_(a.other)))))
+
+
+# ------------------------------------------------------------------------------------------ a year-month as an interval of days
+from .gens import YearMonthG  # noqa: E402
+
+
+@contract("pyoda_time._year_month:YearMonth.to_date_interval", "C18", name="YearMonth.to_date_interval is exactly the set of days of that month (first day .. last day)")
+def _(c):
+    c.ghost("cal", AbsCalG()).arg("self", YearMonthG())
+    c.setup = _setup
+
+    def post(a, r):
+        o = V.fld(a.self, "_YearMonth__start_of_month")
+        y, m = V.fld(o, "$y"), V.fld(o, "$m")
+        first = CA.dse(a.cal.cid, y, m, 1)
+        return And(lo(a, r) == first, hi(a, r) == first + CA.dim(a.cal.cid, y, m) - 1)
+
+    c.returns(post)
